@@ -13,6 +13,7 @@ import (
 	"os"
 	"os/exec"
 	"path/filepath"
+	"runtime"
 	"strconv"
 	"strings"
 	"sync"
@@ -434,7 +435,35 @@ func solveRetry(query string, timeoutMs int) *SolveResult {
 	return res
 }
 
+// loadFactor stretches wall-clock solver limits when the machine is oversubscribed (other
+// verifier runs, test suites): a limit that is generous on an idle machine must not turn into
+// an "unknown" - and from there into a dropped invariant or an alarm - because the solver got
+// a third of a core. 1 on an idle machine, at most 4.
+func loadFactor() float64 {
+	b, err := os.ReadFile("/proc/loadavg")
+	if err != nil {
+		return 1
+	}
+	f := strings.Fields(string(b))
+	if len(f) == 0 {
+		return 1
+	}
+	l, err := strconv.ParseFloat(f[0], 64)
+	if err != nil {
+		return 1
+	}
+	x := l / float64(runtime.NumCPU())
+	if x < 1 {
+		return 1
+	}
+	if x > 4 {
+		return 4
+	}
+	return x
+}
+
 func runOneSeed(ctx context.Context, sp solverSpec, file string, timeoutMs int, seed int) (status string, out string, secs float64) {
+	timeoutMs = int(float64(timeoutMs) * loadFactor())
 	select {
 	case solverSem <- struct{}{}:
 	case <-ctx.Done():
